@@ -1,7 +1,7 @@
 (* Property C08: reported bit counts equal the bits actually written.
    Statements only; proofs in Proofs/CountBits.v, Proofs/OpsLen.v. *)
 From FV Require Import Model.Base Model.Sink Model.Rice Model.Component
-  Proofs.OpsLen Proofs.CountBits.
+  Proofs.OpsLen Proofs.CountBits Proofs.CountStream.
 Local Open Scope N_scope.
 
 (* Residual: any partition order, any parameters, any quotients (no bound on their size/sum) *)
@@ -45,3 +45,17 @@ Theorem C08_either_sink : forall (k : kind) (ops : list op),
   forallb wf_op ops = true -> exists s, run k ops = Ok s /\ blen s = ops_bits ops.
 Proof. exact sink_len_is_ops_bits. Qed.
 Print Assumptions C08_either_sink.
+
+(* further metadata blocks, at any byte-aligned position *)
+Theorem C08_metadata : forall (ms : list (N * list N)) (cur : N), cur mod 8 = 0 ->
+  ops_len cur (meta_ops ms) = sumN (map (fun m => 32 + 8 * N.of_nat (length (snd m))) ms).
+Proof. exact metas_ops_len. Qed.
+Print Assumptions C08_metadata.
+
+(* whole streams: marker, STREAMINFO (MD5 is 16 bytes in the code), metadata blocks, frames that are either
+   precomputed or meet C08_frame's hypotheses *)
+Theorem C08_stream : forall (s : stream) (ops : list op),
+  length (si_md5 (s_info s)) = 16%nat -> Forall frame_countable (s_frames s) ->
+  stream_ops s = Ok ops -> ops_len 0 ops = stream_count_bits s.
+Proof. exact stream_count_bits_correct. Qed.
+Print Assumptions C08_stream.
